@@ -186,6 +186,35 @@ fn run_mut(cap: usize, fill: usize, limit: Option<usize>, out: &mut Vec<Violatio
             return;
         }
     }
+    // extend_from_slice: copies as much as fits (and the limit allows), reports how much.
+    let mut ks = vec![0usize, 1, want, want + 1, want + 5];
+    ks.sort();
+    ks.dedup();
+    for k in ks {
+        let bytes: Vec<u8> = (0..k).map(|i| 0xC0 ^ (i as u8 * 3)).collect();
+        let v0 = mk_vec(0, cap, fill);
+        let before = v0.clone();
+        let name = if limit.is_some() { "LimitedBuf<Vec<u8>>" } else { "Vec<u8>" };
+        let (ret, after) = match limit {
+            None => {
+                let mut b = v0;
+                let r = BufMut::extend_from_slice(&mut b, &bytes);
+                (r, b)
+            }
+            Some(l) => {
+                let mut lb = a10::io::LimitedBuf::new(v0, l);
+                let r = BufMut::extend_from_slice(&mut lb, &bytes);
+                (r, lb.into_inner())
+            }
+        };
+        let m = k.min(want);
+        let mut expect = before.clone();
+        expect.extend_from_slice(&bytes[..m]);
+        if ret != m || after != expect {
+            out.push(v(&format!("extend-wrong/{name}"), format!("{name}: extend_from_slice of {k} bytes into spare {spare} (limit {limit:?}) returns {ret} and leaves {after:02x?}, expected {m} and {expect:02x?}")));
+            return;
+        }
+    }
 }
 
 macro_rules! arr_case {
@@ -372,13 +401,41 @@ fn run_mut_slice(bufs: &[(usize, usize)], tuple: bool, limit: Option<usize>, out
                 }
             }};
         }
+        // The same n bytes through extend_from_slice (plus one more than fits when n is the maximum).
+        macro_rules! ext {
+            ($b:expr, $into:expr) => {{
+                let mut b = $b;
+                let k = if n == want_total { n + 1 } else { n };
+                let bytes: Vec<u8> = (0..k).map(|i| 0xB0 ^ (i as u8 * 5)).collect();
+                let ret = BufMutSlice::extend_from_slice(&mut b, &bytes);
+                let after: Vec<Vec<u8>> = $into(b);
+                let mut appended = Vec::new();
+                let mut clobbered = false;
+                for (i, m) in after.iter().enumerate() {
+                    if m.len() < before[i].len() || m[..before[i].len()] != before[i][..] {
+                        clobbered = true;
+                    } else {
+                        appended.extend_from_slice(&m[before[i].len()..]);
+                    }
+                }
+                if clobbered || ret != n || appended != bytes[..n] {
+                    out.push(v(&format!("extend-wrong/{name}"), format!("{name}: extend_from_slice of {k} bytes (spare {spares:?}, limit {limit:?}) returns {ret}, members gained {appended:02x?}; expected {n} and {:02x?}", &bytes[..n])));
+                }
+            }};
+        }
         macro_rules! arr {
             ($nn:literal) => {{
                 let mut it = members.into_iter();
                 let a: [Vec<u8>; $nn] = std::array::from_fn(|_| it.next().unwrap());
+                let mut it2 = bufs.iter().enumerate().map(|(i, (c, f))| mk_vec(i, *c, *f));
+                let a2: [Vec<u8>; $nn] = std::array::from_fn(|_| it2.next().unwrap());
                 match limit {
                     None => laws!(a, |b: [Vec<u8>; $nn]| b.to_vec()),
                     Some(l) => laws!(a10::io::LimitedBuf::new(a, l), |b: a10::io::LimitedBuf<[Vec<u8>; $nn]>| b.into_inner().to_vec()),
+                }
+                match limit {
+                    None => ext!(a2, |b: [Vec<u8>; $nn]| b.to_vec()),
+                    Some(l) => ext!(a10::io::LimitedBuf::new(a2, l), |b: a10::io::LimitedBuf<[Vec<u8>; $nn]>| b.into_inner().to_vec()),
                 }
             }};
         }
@@ -386,9 +443,15 @@ fn run_mut_slice(bufs: &[(usize, usize)], tuple: bool, limit: Option<usize>, out
             ($($idx:tt),+) => {{
                 let mut it = members.into_iter();
                 let t = ($({ let _ = $idx; it.next().unwrap() }),+);
+                let mut it2 = bufs.iter().enumerate().map(|(i, (c, f))| mk_vec(i, *c, *f));
+                let t2 = ($({ let _ = $idx; it2.next().unwrap() }),+);
                 match limit {
                     None => laws!(t, |b: ($(tup!(@ty $idx)),+)| vec![$(b.$idx.clone()),+]),
                     Some(l) => laws!(a10::io::LimitedBuf::new(t, l), |b: a10::io::LimitedBuf<($(tup!(@ty $idx)),+)>| { let b = b.into_inner(); vec![$(b.$idx.clone()),+] }),
+                }
+                match limit {
+                    None => ext!(t2, |b: ($(tup!(@ty $idx)),+)| vec![$(b.$idx.clone()),+]),
+                    Some(l) => ext!(a10::io::LimitedBuf::new(t2, l), |b: a10::io::LimitedBuf<($(tup!(@ty $idx)),+)>| { let b = b.into_inner(); vec![$(b.$idx.clone()),+] }),
                 }
             }};
             (@ty $idx:tt) => { Vec<u8> };
